@@ -535,14 +535,16 @@ WORLD_TRUSTED = [
     "world stream: the Go harness drives the real Session.dispatch, Hub and Topic handlers one request at a time over an in-memory "
     "store adapter (harness/overlay/main/verif_memadapter_test.go) written from the MySQL adapter's statements; the adapter is part "
     "of the trusted base, the goroutine scheduling of the real server is replaced by a deterministic pump",
-    "Model/World.lean, TopicGrp.lean, TopicOps.lean, TopicReq.lean (group topics) and TopicP2P.lean (peer-to-peer topics) are a hand "
+    "Model/World.lean, TopicGrp.lean, TopicOps.lean, TopicReq.lean (group topics), TopicChan.lean (channels) and TopicP2P.lean (peer-to-peer topics) are a hand "
     "transcription of the handlers; they are tied to the code only by the differential run (same requests, byte-identical replies, "
     "traffic, adapter calls and state digests)",
     "history monitors (vlib/worldmon.py) decide the property on the implementation's own output when the tie is broken",
 ]
 WORLD_ASSUMPTIONS = [
-    "group and peer-to-peer topics (no channels, me/fnd/sys; presence routed through users' `me` topics is not observed), one server "
-    "node, requests processed one at a time in arrival order; on-behalf-of (root `as=`) requests are exercised on group topics only",
+    "group, channel-enabled and peer-to-peer topics (no me/fnd/sys; presence routed through users' `me` topics is not observed), one "
+    "server node, requests processed one at a time in arrival order; on-behalf-of (root `as=`) requests are exercised on plain group "
+    "topics only; on a channel-enabled topic two users come as readers (`chn` spelling) and two as subscribers, a reader does not issue "
+    "{set desc}, {del msg} or {del sub}",
     "accounts carry the default access the server stores for an account (within JRWPAS / JRWPA, with A unless N: user.go:97-117)",
     "at most one injected store failure or crash point per request",
 ]
